@@ -110,7 +110,7 @@ func c19Run(c *fw.Ctx) fw.Outcome {
 	// creation/revision date bytes of the GSI block
 	defer func() { astisub.Now = func() time.Time { return fixedNow } }()
 	var clocked [2]map[string][]byte
-	for k, now := range []time.Time{time.Date(2001, 2, 3, 4, 5, 6, 0, time.UTC), time.Date(2033, 11, 12, 13, 14, 15, 0, time.UTC)} {
+	for k, now := range []time.Time{time.Date(2001, 2, 3, 4, 5, 6, 0, time.UTC), time.Date(2033, 11, 12, 13, 14, 15, 0, time.FixedZone("far-west", -11*3600))} {
 		now := now
 		astisub.Now = func() time.Time { return now }
 		clocked[k] = map[string][]byte{}
